@@ -114,6 +114,8 @@ def lru_compare(batch, res, stream):
 def lru_shard(arg):
     """all sequences over MUT starting with `prefix`, total length <= L, each followed by the reads"""
     cap, prefix, L, own_short = arg
+    if own_short and MUT[prefix[0]][0] == 'G':
+        L = 2       # only the short sequences that start with a miss
     LRUCache = _lru_class()
     res = Result()
     batch = []
@@ -138,10 +140,13 @@ def lru_shard(arg):
             continue
         evicted = sum(1 for o in ops if o[0] == 'P') > cap and len(items) == cap
         if evicted or any(o == 'KE' for o in outs):
-            code = 0
-            for i in s:
-                code = code * 6 + i + 1
-            res.nontrivial.add(code * 4 + cap)
+            if len(s) <= 6:
+                code = 0
+                for i in s:
+                    code = code * 6 + i + 1
+                res.nontrivial.add(code * 4 + cap)
+            else:
+                res.count('lru:nontrivial-longer-than-6')
         batch.append((cap, NKEYS, ops, outs, dmp, items))
     lru_compare(batch, res, 'lru-exhaustive')
     return res
@@ -377,6 +382,10 @@ def lru_args(ctx):
     for cap in range(4):
         first = True
         for p in itertools.product(range(len(MUT)), repeat=2):
+            if MUT[p[0]][0] == 'G' and not first:
+                # a leading get on the empty cache is a miss that changes nothing (checked on the
+                # sequences of length 1): the sequence behaves like its tail, which is enumerated
+                continue
             # capacity 0 keeps the cache empty, capacity 1 holds a single node and capacity 3 never
             # evicts with 3 keys: one step shorter than capacity 2
             args.append((cap, list(p), L if cap == 2 else L - 1, first))
@@ -400,11 +409,11 @@ def run(ctx):
     for r in pmap('harness.props.c15', 'lru_shard', args):
         res.merge(r)
     t1 = time.time()
-    nr = ctx.n(200, 6000)
+    nr = ctx.n(200, 3000)
     for r in pmap('harness.props.c15', 'lru_random_shard', [(ctx.seed, i, nr) for i in range(16)]):
         res.merge(r)
     t2 = time.time()
-    nh = ctx.n(190, 6500)
+    nh = ctx.n(190, 4000)
     for r in pmap('harness.props.c15', 'hist_shard', [(ctx.seed, i, nh, 25) for i in range(16)]):
         res.merge(r)
     t3 = time.time()
